@@ -5,6 +5,7 @@ import (
 	"io"
 	"time"
 
+	"github.com/beevik/etree"
 	dsig "github.com/russellhaering/goxmldsig"
 )
 
@@ -20,6 +21,12 @@ var Clock *dsig.Clock
 // bytes when they are need by the library. The default value is
 // rand.Reader, but it can be replaced for testing.
 var RandReader = rand.Reader
+
+// xmlWriteSettings makes etree write carriage returns (and, in attribute values,
+// tabs and newlines) as character references. Written raw, an XML parser
+// normalizes them to "\n", so the value read back differs from the value written
+// and no longer matches what was canonicalized for signing.
+var xmlWriteSettings = etree.WriteSettings{CanonicalText: true, CanonicalAttrVal: true}
 
 //nolint:unparam // This always receives 20, but we want the option to do more or less if needed.
 func randomBytes(n int) []byte {
